@@ -70,6 +70,8 @@ structure Obs where
   csp : Int
   sp : Int
   maxtouch : Int := -1     -- highest value-stack slot at or above StackSize that was written (-1: none)
+  cost0 : Int := 0         -- eval_cost when the evaluation started (0: not reported)
+  completed : Bool := false  -- the evaluation returned to the driver normally (`r ret`)
   deriving Repr
 
 /-- judge the numbers of one evaluation (the clause-level core of the oracle: `model_satisfies_spec` is about this
@@ -89,13 +91,16 @@ def judgeNums (lim : Limits) (o : Obs) : List String :=
       [s!"stack-exceeded maxtouch={o.maxtouch} stack={lim.stack}"] else []) ++
   (if o.csp ≠ -1 ∨ o.sp ≠ -1 then
       (if lim.hasSafe ∧ o.csp = -1 then [s!"not-unwound through-safe-apply sp={o.sp}"]
-       else [s!"not-unwound csp={o.csp} sp={o.sp}"]) else [])
+       else [s!"not-unwound csp={o.csp} sp={o.sp}"]) else []) ++
+  -- nothing completes after an expiry: a normal return used fewer instructions than the budget it started with
+  (if o.completed = true ∧ o.cost0 > 0 ∧ o.ticks ≥ o.cost0 then
+      [s!"completed-after-expiry ticks={o.ticks} budget={o.cost0}"] else [])
 
 /-- judge the observation line of one evaluation -/
-def judgeObs (lim : Limits) (toks : List String) : List String :=
+def judgeObs (lim : Limits) (completed : Bool) (toks : List String) : List String :=
   let get (k : String) : Int := (kvOf toks k).getD 0
   judgeNums lim { ticks := get "ticks", maxcsp := get "maxcsp", maxsp := get "maxsp", csp := get "csp", sp := get "sp",
-                  maxtouch := (kvOf toks "maxtouch").getD (-1) }
+                  maxtouch := (kvOf toks "maxtouch").getD (-1), cost0 := get "cost0", completed := completed }
 
 /-- the constructors the harness can be asked for (`sz <name> <args>`, harness/mudlib/c04/sizes.c) -/
 inductive Ctor
@@ -202,6 +207,7 @@ structure JState where
   pendingEv : Nat := 0            -- `ev` commands whose result line has not been seen
   pendingSz : List String := []   -- constructors of `sz` commands whose result has not been seen (oldest first)
   bad : List String := []
+  lastRet : Bool := false         -- the result line before the `obs` line was `r ret`
 
 def JState.flag (s : JState) (vs : List String) : JState := { s with bad := s.bad ++ vs }
 
@@ -213,11 +219,11 @@ def judgeLine (s : JState) (line : String) : JState :=
     | some k => s.flag (judgeEv [.afterCatch k])
     | none => s.flag [s!"malformed {line}"]
   | ["r", "ret", v] =>
-    let s1 : JState := { s with pendingEv := s.pendingEv - 1 }
+    let s1 : JState := { s with pendingEv := s.pendingEv - 1, lastRet := true }
     s1.flag (judgeMapSeq s.lim v ++ judgeCallbacks s.lim)
-  | "r" :: "ret" :: _ => { s with pendingEv := s.pendingEv - 1 }
-  | "r" :: "err" :: _ => { s with pendingEv := s.pendingEv - 1 }
-  | "obs" :: rest => s.flag (judgeObs s.lim rest)
+  | "r" :: "ret" :: _ => { s with pendingEv := s.pendingEv - 1, lastRet := true }
+  | "r" :: "err" :: _ => { s with pendingEv := s.pendingEv - 1, lastRet := false }
+  | "obs" :: rest => { s with lastRet := false }.flag (judgeObs s.lim s.lastRet rest)
   | ["sz", "err"] => { s with pendingSz := s.pendingSz.drop 1 }
   | ["sz", "ok", n] =>
     match s.pendingSz, n.toInt? with
